@@ -289,6 +289,14 @@ def check(res, tier, replay=None):
         r = vcommon.rng("c01")
         scripts = [l.strip() for l in open(replay) if l.strip() and not l.startswith("#")] if replay else scripts_for(r, res, tier)
         found = run_engine(res, prep, scripts, oracle_c01, "c01")
+        if not replay:
+            # the same programs when the N-th write() on the stream is short (the OS may
+            # always do that): write_evbuf must loop, the file must be byte-identical
+            sub = [s for s in scripts if "flush" in s][: (40 if tier == "quick" else 400)]
+            for n in ((1, 2, 3, 5) if tier == "quick" else range(1, 12)):
+                res.dist("pass:short-write-%d" % n)
+                found = run_engine(res, prep, sub, oracle_c01, "c01-short%d" % n,
+                                   env_extra={"RT_FAULT": "write:%d:short" % n}) or found
         for b in res.cov.get("correspondence_breaks", [])[:3]:
             proved = False
             res.failed_obligations = getattr(res, "failed_obligations", []) + ["correspondence rt: " + b["what"] + " on: " + b["script"]]
